@@ -57,7 +57,7 @@ struct C18Model : mcx::Model {
         for(long v : {-1l, 0l, 1l}) add(CHIPTYPE, v, 0, "setChipType(" + std::to_string(v) + ")");
         for(long v : {0l, 1l, 3l, 5l, 6l, -1l}) add(VOLMODEL, v, 0, "setVolumeRangeModel(" + std::to_string(v) + ")");
         for(long v : {-1l, 0l, 2l, 3l, -2l}) add(ALLOC, v, 0, "setChannelAllocMode(" + std::to_string(v) + ")");
-        add(SCALEMOD, 1, 0, "setScaleModulators(1)"); add(SCALEMOD, 0, 0, "setScaleModulators(0)"); add(FRBRIGHT, 1, 0, "setFullRangeBrightness(1)"); add(SOFTPAN, 1, 0, "setSoftPanEnabled(1)"); add(ARP, 1, 0, "setAutoArpeggio(1)"); add(ARP, 0, 0, "setAutoArpeggio(0)");
+        add(SCALEMOD, 1, 0, "setScaleModulators(1)"); add(SCALEMOD, 0, 0, "setScaleModulators(0)"); add(SCALEMOD, -1, 0, "setScaleModulators(-1)"); add(FRBRIGHT, 1, 0, "setFullRangeBrightness(1)"); add(SOFTPAN, 1, 0, "setSoftPanEnabled(1)"); add(ARP, 1, 0, "setAutoArpeggio(1)"); add(ARP, 0, 0, "setAutoArpeggio(0)");
         add(LOOPEN, 1, 0, "setLoopEnabled(1)"); add(LOOPEN, 0, 0, "setLoopEnabled(0)"); for(long v : {-1l, 0l, 3l}) add(LOOPCNT, v, 0, "setLoopCount(" + std::to_string(v) + ")"); add(HOOKSONLY, 1, 0, "setLoopHooksOnly(1)"); add(HOOKSONLY, 0, 0, "setLoopHooksOnly(0)");
         add(TEMPO, 20, 0, "setTempo(2.0)"); add(TEMPO, 5, 0, "setTempo(0.5)"); add(TEMPO, 0, 0, "setTempo(0)"); add(TEMPO, -10, 0, "setTempo(-1)");
         add(HOOK_RAW, 1, 0, "setRawEventHook(fn)"); add(HOOK_RAW, 0, 0, "setRawEventHook(NULL)"); add(HOOK_NOTE, 1, 0, "setNoteHook(fn)"); add(HOOK_DEBUG, 1, 0, "setDebugMessageHook(fn)"); add(HOOK_LS, 1, 0, "setLoopStartHook(fn)"); add(HOOK_LE, 1, 0, "setLoopEndHook(fn)"); add(HOOK_LE, 0, 0, "setLoopEndHook(NULL)");
@@ -146,7 +146,9 @@ struct C18Model : mcx::Model {
         case CHIPTYPE: opn2_setChipType(d, (int)o.a); R.chipTypeUser = (int)o.a; break;
         case VOLMODEL: opn2_setVolumeRangeModel(d, (int)o.a); R.volModelUser = (o.a >= 0 && o.a <= 5) ? (int)o.a : -100; break;
         case ALLOC: opn2_setChannelAllocMode(d, (int)o.a); R.alloc = (o.a >= -1 && o.a <= 2) ? (int)o.a : -1; break;
-        case SCALEMOD: opn2_setScaleModulators(d, (int)o.a); R.scalemod = o.a != 0; break;
+        case SCALEMOD: opn2_setScaleModulators(d, (int)o.a);
+            // -1 = "bank default": the bank format carries no such default, so which way it goes is not specified - but it has gone one way when the call returns, and that must stay in force like any other value
+            R.scalemod = o.a < 0 ? I.in.synth().m_scaleModulators : o.a != 0; break;
         case FRBRIGHT: opn2_setFullRangeBrightness(d, (int)o.a); R.frbright = o.a != 0; break;
         case SOFTPAN: opn2_setSoftPanEnabled(d, (int)o.a); R.softpan = o.a != 0; break;
         case ARP: opn2_setAutoArpeggio(d, (int)o.a); R.arp = o.a != 0; break;
